@@ -110,6 +110,8 @@ class BuildResult:
     log: str
     forbidden_hits: list[str]
     wall_s: float
+    #: Generated/*.lean files that could not be regenerated from the live objects (gen_tables.FAILED): name -> error
+    tables_failed: dict = field(default_factory=dict)
 
 
 def _strip_comments(text: str) -> str:
@@ -190,6 +192,7 @@ def build(prop: str, thorough: bool = False) -> BuildResult:
     fcntl.flock(lock, fcntl.LOCK_EX)
     try:
         changed = gen_tables.main()
+        tables_failed = dict(getattr(gen_tables, "FAILED", {}))
         names = theorem_names(prop)
         audit_path = write_audit(prop, names)
         log = []
@@ -236,7 +239,7 @@ def build(prop: str, thorough: bool = False) -> BuildResult:
     finally:
         fcntl.flock(lock, fcntl.LOCK_UN)
         lock.close()
-    return BuildResult(changed, driver_ok, proofs_ok, audit_ok, names, audited, "\n".join(log), hits, time.time() - t0)
+    return BuildResult(changed, driver_ok, proofs_ok, audit_ok, names, audited, "\n".join(log), hits, time.time() - t0, tables_failed)
 
 
 # --------------------------------------------------------------------------
@@ -424,6 +427,12 @@ def run_property(prop: Property, tier: str, seed: int) -> int:
             table_ok = table_msg == ""
         except Exception as e:
             table_ok, table_msg = False, "table round-trip raised %r" % (e,)
+    if b.tables_failed:
+        # a generated table could not be read off the code any more: the model keeps the table it had; whether the code
+        # still behaves as the property demands is for the streams' oracles to say
+        table_ok = False
+        table_msg = (table_msg + "; " if table_msg else "") + "; ".join(
+            "Generated/%s could not be regenerated (%s)" % kv for kv in sorted(b.tables_failed.items()))
     for s in prop.streams:
         corpus = []
         for f in list(known.get("findings", [])) + list(known.get("fixed", [])):
